@@ -9,7 +9,9 @@ EXPLANATION = (
     "path split on '.'; (R3) RawProp::typed tests the type before converting, converts a YAML value with T::from_value, and reports "
     "InvalidInput on mismatch; Props::set never replaces an existing slot (first value/type wins); no unsafe code in the props module; "
     "(R4) the wildcard branch of update_from recurses with exactly one path segment removed and literal keys recurse with exactly the "
-    "matched number of segments removed. Decides these necessary conditions only; not the iff over all configurations.")
+    "matched number of segments removed. "
+    '(R2 also: an included configuration reaches every module created before and after the include; R5) compartmentalize_map rewrites nested wildcard keys inside the compartment obtained with entry(..).or_insert(..) - an existing compartment is extended, never rebuilt or shallow-merged - and stores the leaf under the key remainder. '
+    "Decides these necessary conditions only; not the iff over all configurations.")
 ASSUMPTIONS = ["serde_yml::Mapping::get / keys behave as documented"]
 
 PR = 'des_net_utils::props::'
